@@ -24,6 +24,21 @@ type FaultPlan struct {
 	CloseFail int // fail the n-th Rows.Close call
 	ExecFail  int // fail the n-th statement Exec
 	QueryFail int // fail the n-th Query
+	// CallNext, if > 0, makes the n-th Rows.Next call invoke OnNext (outside
+	// the plan's lock) before proceeding normally: a side effect such as a
+	// context cancellation placed in the middle of a row iteration.
+	CallNext int
+	OnNext   func()
+	// CallExec, if > 0, makes the n-th statement Exec invoke OnExec after it
+	// has completed on the real driver and before its result is returned.
+	CallExec int
+	OnExec   func()
+	// ExecFailAfter lets the n-th Exec complete on the real driver and then
+	// reports ErrInjected for it (a lost reply).
+	ExecFailAfter int
+	// CommitFail rolls the n-th transaction commit back and reports ErrInjected.
+	CommitFail int
+	commits    int
 	nexts     int
 	closes    int
 	execs     int
@@ -44,6 +59,46 @@ func (p *FaultPlan) hit(counter *int, target int) bool {
 	}
 	*counter++
 	return target > 0 && *counter == target
+}
+
+// Reset disarms the plan and clears targets and counters.
+func (p *FaultPlan) Reset() {
+	p.mu.Lock()
+	defer p.mu.Unlock()
+	p.armed = false
+	p.NextFail, p.CloseFail, p.ExecFail, p.QueryFail, p.CallNext, p.CallExec, p.ExecFailAfter, p.CommitFail = 0, 0, 0, 0, 0, 0, 0, 0
+	p.OnNext, p.OnExec = nil, nil
+	p.nexts, p.closes, p.execs, p.queries, p.commits = 0, 0, 0, 0, 0
+}
+
+// afterExec runs the post-completion actions of the exec just counted.
+func (p *FaultPlan) afterExec() error {
+	p.mu.Lock()
+	armed, n := p.armed, p.execs
+	call := armed && p.CallExec > 0 && n == p.CallExec && p.OnExec != nil
+	fn := p.OnExec
+	fail := armed && p.ExecFailAfter > 0 && n == p.ExecFailAfter
+	p.mu.Unlock()
+	if call {
+		fn()
+	}
+	if fail {
+		return ErrInjected
+	}
+	return nil
+}
+
+type ftx struct {
+	driver.Tx
+	plan *FaultPlan
+}
+
+func (t ftx) Commit() error {
+	if t.plan.hit(&t.plan.commits, t.plan.CommitFail) {
+		t.Tx.Rollback()
+		return ErrInjected
+	}
+	return t.Tx.Commit()
 }
 
 // Counts returns the calls seen while armed.
@@ -107,10 +162,17 @@ func (c *fconn) PrepareContext(ctx context.Context, q string) (driver.Stmt, erro
 func (c *fconn) Prepare(q string) (driver.Stmt, error) { return c.PrepareContext(context.Background(), q) }
 
 func (c *fconn) BeginTx(ctx context.Context, opts driver.TxOptions) (driver.Tx, error) {
+	var tx driver.Tx
+	var err error
 	if b, ok := c.Conn.(driver.ConnBeginTx); ok {
-		return b.BeginTx(ctx, opts)
+		tx, err = b.BeginTx(ctx, opts)
+	} else {
+		tx, err = c.Conn.Begin()
 	}
-	return c.Conn.Begin()
+	if err != nil {
+		return nil, err
+	}
+	return ftx{Tx: tx, plan: c.plan}, nil
 }
 
 func (c *fconn) ExecContext(ctx context.Context, q string, args []driver.NamedValue) (driver.Result, error) {
@@ -118,7 +180,13 @@ func (c *fconn) ExecContext(ctx context.Context, q string, args []driver.NamedVa
 		return nil, ErrInjected
 	}
 	if e, ok := c.Conn.(driver.ExecerContext); ok {
-		return e.ExecContext(ctx, q, args)
+		res, err := e.ExecContext(ctx, q, args)
+		if err == nil {
+			if aerr := c.plan.afterExec(); aerr != nil {
+				return nil, aerr
+			}
+		}
+		return res, err
 	}
 	return nil, driver.ErrSkip
 }
@@ -168,7 +236,13 @@ func (s *fstmt) ExecContext(ctx context.Context, args []driver.NamedValue) (driv
 		return nil, ErrInjected
 	}
 	if e, ok := s.Stmt.(driver.StmtExecContext); ok {
-		return e.ExecContext(ctx, args)
+		res, err := e.ExecContext(ctx, args)
+		if err == nil {
+			if aerr := s.plan.afterExec(); aerr != nil {
+				return nil, aerr
+			}
+		}
+		return res, err
 	}
 	return nil, errors.New("faultdriver: inner statement lacks ExecContext")
 }
@@ -211,6 +285,13 @@ func wrapRows(r driver.Rows, p *FaultPlan) driver.Rows {
 func (r frows) Next(dest []driver.Value) error {
 	if r.plan.hit(&r.plan.nexts, r.plan.NextFail) {
 		return ErrInjected
+	}
+	r.plan.mu.Lock()
+	call := r.plan.armed && r.plan.CallNext > 0 && r.plan.nexts == r.plan.CallNext && r.plan.OnNext != nil
+	fn := r.plan.OnNext
+	r.plan.mu.Unlock()
+	if call {
+		fn()
 	}
 	return r.Rows.Next(dest)
 }
